@@ -9,7 +9,7 @@ META = dict(
     category='exploration',
     engine='Grammar',
     technique='TLA+ spec Grammar: TLC generates token sentences, grammar derivations, nesting descriptors and alias graphs and model-checks alias expansion as a stack machine (bounded stack, agreement with the functional reference and with the static cycle/error reachability, termination); every case is parsed by the real revset, fileset and template parsers in child processes under a per-case timeout (S->I) and TLC judges the observed outcomes',
-    text='Inputs: all token sentences of <=3 tokens (<=4 thorough) over a 22-token alphabet (identifiers, brackets, prefix/postfix/infix operators, @ : . , string literals incl. unterminated, escaped, invalid-escape and raw, unicode identifier/symbol, space, integer) plus pseudo-random 5-token sentences, all derivations of a 14-production token grammar up to 5 (6) tokens, nesting generators (prefix operators, postfix operators, infix chains, argument lists, long string literals to 100 000; parentheses and nested calls to 10 because each level is parsed three times, plus calls at 10 000/100 000 where the first descent ends the run), and alias graphs over the symbol aliases A, x and the function alias F(x) with 14 bodies each (3000 pseudo-random graphs quick, all 50 625 graph x expression pairs thorough). Contract: the outcome is Ok or Err - never a panic, abort or stack overflow - and alias expansion fails exactly when the model expansion does (recursion found on the stack, wrong arity, unparsable definition). TLC proves for the model that expansion terminates with a stack of distinct aliases and fails iff a cycle or a local error is reachable in the alias graph.',
+    text='Inputs: all token sentences of <=3 tokens over a 22-token alphabet (thorough: also all 4-token sentences over its 14 structural tokens) (identifiers, brackets, prefix/postfix/infix operators, @ : . , string literals incl. unterminated, escaped, invalid-escape and raw, unicode identifier/symbol, space, integer) plus pseudo-random 5-token sentences, all derivations of a 14-production token grammar up to 5 (6) tokens, nesting generators (prefix operators, postfix operators, infix chains, argument lists, long string literals to 100 000; parentheses and nested calls to 10 because each level is parsed three times, plus calls at 10 000/100 000 where the first descent ends the run), and alias graphs over the symbol aliases A, x and the function alias F(x) with 14 bodies each (3000 pseudo-random graph x expression pairs quick, 15 000 thorough; the model itself is checked on all 50 625 pairs in thorough). Contract: the outcome is Ok or Err - never a panic, abort or stack overflow - and alias expansion fails exactly when the model expansion does (recursion found on the stack, wrong arity, unparsable definition). TLC proves for the model that expansion terminates with a stack of distinct aliases and fails iff a cycle or a local error is reachable in the alias graph.',
     note='Crash-freedom on arbitrary byte strings is fuzzing territory and is NOT claimed (DESIGN 5): only model-derived inputs. A timeout (nested calls between 11 and the overflow depth would take 3^n steps) is recorded, not judged. Parsing runs on a thread with an 8 MiB stack in a dev-profile (opt-level 1) build; the overflow depth depends on both. Known finding: stack overflow at nesting depth >= 5000 (known-findings.txt).',
     design='4 C36, 5, 7',
 )
@@ -61,6 +61,9 @@ def run(ctx):
     # termination of the alias machine (liveness) and anti-vacuity
     r = vf.tlc_mc("MC_Grammar", "MC_Grammar_alias_live", workers=ctx.q(4, 8), timeout=1800)
     ctx.add_mc(r, "MC_Grammar_alias_live (PROPERTY Terminates)")
+    if T:   # the alias machine on ALL 50 625 (graph, expression) pairs
+        r = vf.tlc_mc("MC_Grammar", "MC_Grammar_alias_all", workers=12, timeout=2400)
+        ctx.add_mc(r, "MC_Grammar_alias_all")
     fc.negative(ctx, "MC_Grammar", "MC_Grammar_neg_nocycle", "InvStack")
 
     # cases per language: structured cases first, the many plain sentences last
